@@ -346,6 +346,48 @@ def fetch (hash256 : Bytes → Bytes) (network txId response : String) : Option 
       | none => none
       | some computed => if computed ≠ txId then none else some tx
 
+/-! ### the fetcher as a state machine over the class-level cache `TxFetcher.cache` -/
+
+/-- `TxFetcher.cache`: a dict from requested id to transaction (association list, at most one
+    entry per key) -/
+abbrev FetchCache := List (String × Tx)
+
+def cacheGet : FetchCache → String → Option Tx
+  | [], _ => none
+  | (k, t) :: r, key => if k = key then some t else cacheGet r key
+
+/-- `cache[key] = tx` (an existing key keeps its position, as in a Python dict) -/
+def cacheSet : FetchCache → String → Tx → FetchCache
+  | [], key, tx => [(key, tx)]
+  | (k, t) :: r, key, tx => if k = key then (k, tx) :: r else (k, t) :: cacheSet r key tx
+
+/-- one call `TxFetcher.fetch(tx_id, network, fresh)`; `response` is what the server would answer
+    if it were asked -/
+structure FetchCall where
+  txId : String
+  network : String
+  response : String
+  fresh : Bool
+
+/-- TxFetcher.fetch on the shared cache: the answer (`none` = raised) and the cache afterwards.
+    The server is asked only when `fresh` or the id is not cached; the cache is written only after
+    the id check succeeded (an exception leaves it as it was); a cache hit is returned as it is
+    (neither the network's URL nor the server is consulted). -/
+def fetchStep (hash256 : Bytes → Bytes) (c : FetchCache) (call : FetchCall) : Option Tx × FetchCache :=
+  if call.fresh ∨ (cacheGet c call.txId).isNone then
+    match fetch hash256 call.network call.txId call.response with
+    | none => (none, c)
+    | some tx => (some tx, cacheSet c call.txId tx)
+  else (cacheGet c call.txId, c)
+
+/-- a history of calls: the answers in order and the final cache -/
+def fetchRun (hash256 : Bytes → Bytes) : FetchCache → List FetchCall → List (Option Tx) × FetchCache
+  | c, [] => ([], c)
+  | c, call :: r =>
+    let (a, c') := fetchStep hash256 c call
+    let (as, c'') := fetchRun hash256 c' r
+    (a :: as, c'')
+
 /-! ## signature hashes -/
 
 /-- `hash_type & SIGHASH_ANYONECANPAY` is non-zero -/
@@ -672,7 +714,8 @@ def fromEnd (items : List Bytes) (k : Nat) : Option Bytes :=
 
 /-- Witness.tap_leaf().hash(): ControlBlock.parse of `items[-1]` (`[-2]` with annex) — only its
     length tests, the leaf version `b[0] & 0xFE` and the validity of the internal key matter —
-    then the tap script `items[-2]` (`[-3]`) parsed and re-serialised, tagged "TapLeaf".
+    then the tap script `items[-2]` (`[-3]`) parsed, its `raw` attribute set to the element itself
+    (so that it serialises to exactly these bytes), tagged "TapLeaf".
     `xonlyOK` = "S256Point.parse_xonly does not raise". -/
 def tapLeafHash (cfg : Cfg) (sha256 : Bytes → Bytes) (xonlyOK : Bytes → Bool) (w : Witness) : Option Bytes := do
   let a ← w.hasAnnex cfg
@@ -684,7 +727,8 @@ def tapLeafHash (cfg : Cfg) (sha256 : Bytes → Bytes) (xonlyOK : Bytes → Bool
   let a ← w.hasAnnex cfg
   let raw ← fromEnd w.items (if a then 3 else 2)
   if ¬ raw.length < 2 ^ 63 then none else
-  let ser ← Script.serialize (Script.parseRaw raw)
+  -- Witness.tap_script: the parsed script with `raw` set to the witness element itself
+  let ser ← Script.serialize { Script.parseRaw raw with raw := some raw }
   let vb ← byteOf (ver.toNat &&& 0xFE)
   pure (taggedHash sha256 Gen.tapLeafTag (vb ++ ser))
 
